@@ -38,6 +38,14 @@ IdxOf(pr, n)  == CHOOSE i \in NodeIdx(pr) : pr.nodes[i].name = n
 NodeByName(pr, n) == pr.nodes[IdxOf(pr, n)]
 Outputs(pr)   == UNION {Names(pr.nodes[i].outputs) : i \in NodeIdx(pr)}
 DataOutputs(nd) == {nd.outputs[j] : j \in 1..nd.ndata}
+\* names that some node of a program (or of a graph nested in it, under the exposed name) produces as a VALUE;
+\* the remaining outputs are ordering signals only
+RECURSIVE ProgDataOutputs(_)
+ProgDataOutputs(pr) ==
+  UNION {IF pr.nodes[i].kind = "graph"
+         THEN {pr.nodes[i].outmap[k][2] : k \in {k \in 1..Len(pr.nodes[i].outmap) :
+                                                    pr.nodes[i].outmap[k][1] \in ProgDataOutputs(pr.nodes[i].sub)}}
+         ELSE DataOutputs(pr.nodes[i]) : i \in NodeIdx(pr)}
 
 \* real (non-END) targets of a gate that are nodes of the graph
 Targets(pr, g)      == Names(g.targets) \cap NodeNames(pr)
@@ -393,10 +401,12 @@ ExecNode(pr, prefix, nd, args, st, step, mode) ==
            LET col(pair) == [c \in 1..Len(mr.results) |->
                     LET rv == FilterOut(nd.sub, mr.results[c].vals, Unset)
                     IN IF mr.results[c].status = "completed" /\ pair[1] \in DOMAIN rv THEN rv[pair[1]] ELSE None]
-               outs == [i \in 1..Len(nd.outmap) |-> <<nd.outmap[i][2], ListText(col(nd.outmap[i]))>>]
+               \* ordering-only (emit) outputs of the mapped graph carry no value: they are not collected
+               dm == SelectSeq(nd.outmap, LAMBDA pm : pm[1] \in ProgDataOutputs(nd.sub))
+               outs == [i \in 1..Len(dm) |-> <<dm[i][2], ListText(col(dm[i]))>>]
                w2 == [mr.w EXCEPT !.lists = [t \in (DOMAIN mr.w.lists) \cup {outs[i][2] : i \in 1..Len(outs)} |->
                          IF \E i \in 1..Len(outs) : outs[i][2] = t
-                         THEN col(nd.outmap[CHOOSE i \in 1..Len(outs) : outs[i][2] = t])
+                         THEN col(dm[CHOOSE i \in 1..Len(outs) : outs[i][2] = t])
                          ELSE mr.w.lists[t]]]
            IN [base EXCEPT !.outs = outs, !.w = w2]
   ELSE IF IsGraph(nd) THEN
